@@ -14,11 +14,11 @@ META = {
     "functions": ["gfapy.line.edge.link.complement.Complement.complement", "Equivalence.is_same/is_complement/is_eql/is_compatible/is_compatible_direct/is_compatible_complement",
                   "CIGAR.complement", "CIGAR.Operation.__eq__", "FromTo.from_end/to_end", "SegmentEnd.__eq__", "Line.clone", "OrientedLine.__eq__/inverted"],
     "bounds": "link between a and b or a self link (a,a: hairpins and same-orientation self links included), both orientations symbolic, CIGAR of 0..2 (quick) / 0..3 (thorough) operations over {M,I,D,P,=,X,H} with ANY integer lengths (0 operations = placeholder '*')",
-    "timeout": {"quick": 300, "thorough": 1200}, "parts": {"quick": 16, "thorough": 16}},
+    "timeout": {"quick": 300, "thorough": 900}, "parts": {"quick": 16, "thorough": 16}},
   "h_link_distinct": {"kind": "L",
     "functions": ["Equivalence.is_same/is_complement/is_eql", "CIGAR.complement", "CIGAR.Operation.__eq__", "FromTo.from_end/to_end", "SegmentEnd.__eq__"],
     "bounds": "as h_link_laws; the second link differs in exactly one aspect: from orientation / to orientation / to segment / one operation length (+1) / one operation code / the complement ends with the overlap left unspecified on one side only / the same ends likewise",
-    "timeout": {"quick": 300, "thorough": 1200}, "parts": {"quick": 16, "thorough": 16}},
+    "timeout": {"quick": 300, "thorough": 900}, "parts": {"quick": 16, "thorough": 16}},
   "h_add_complement": {"kind": "G",
     "functions": ["Gfa.add_line", "Connection.connect", "Finders._search_duplicate/_search_link", "link References._process_not_unique",
                   "Equivalence.is_compatible/is_complement", "path References._initialize_links", "UpdateReferences.__update_reference_in_list", "Gfa.validate"],
@@ -27,7 +27,7 @@ META = {
   "h_path_three_links": {"kind": "G", "tiers": ["thorough"],
     "functions": ["path References._compute_required_links/_initialize_links", "Finders._search_link", "CapturedPath (P lines)", "VirtualToReal"],
     "bounds": "path over 3 links a-b-c-d, each link stored in either form (3 bits), path written forwards or backwards, all 5! arrival orders of the 4 link/path lines + 1 segment line",
-    "timeout": {"thorough": 1200}, "parts": {"thorough": 16}},
+    "timeout": {"thorough": 900}, "parts": {"thorough": 16}},
  },
 }
 
